@@ -138,6 +138,9 @@ var envNoise = [][2]string{{"LANG", "de_DE.UTF-8"}, {"LC_ALL", "C"}, {"TZ", "Asi
 // property declares irrelevant. envReads are the variables the base run was seen reading.
 func twinsC08(src *choice.Src, w *World, envReads []string) (tw []*World, dims []string) {
 	add := func(dim string, t *World) { tw = append(tw, t); dims = append(dims, dim) }
+	// the very same world again: anything the simulation does not control (goroutines of the tree,
+	// real time, addresses) shows here first
+	add("repeat", w.Clone())
 	for i := 0; i < 2; i++ {
 		t := w.Clone()
 		t.MapSeed = seed64(src, "twin.map")
